@@ -408,3 +408,62 @@ func edgeFactsD(e edgeCond, depth int) []condFact {
 	}
 	return out
 }
+
+// impliedConds describes what taking edge e establishes, as condition
+// descriptions: the edge itself and - when the branch tests the bool result of a
+// helper of the same package (`if r.alreadyReplied() { return }`) - the
+// conditions that hold on every return of the helper compatible with the edge,
+// the helper's parameters shown as the call's arguments.
+func impliedConds(e edgeCond, depth int) []string {
+	out := []string{describeCond(e)}
+	cnd, succ := e.Norm()
+	var call *ssa.Call
+	idx := 0
+	switch x := cnd.(type) {
+	case *ssa.Call:
+		call = x
+	case *ssa.Extract:
+		if c, ok := x.Tuple.(*ssa.Call); ok {
+			call, idx = c, x.Index
+		}
+	}
+	if call == nil || depth > 3 {
+		return out
+	}
+	cal := call.Common().StaticCallee()
+	if cal == nil || len(cal.Blocks) == 0 || cal.Pkg == nil || cal.Pkg != core.Outermost(e.If.Parent()).Pkg {
+		return out
+	}
+	want := succ == 0
+	rs := core.NewResolver()
+	rs.Bind(call)
+	var common map[string]bool
+	for _, ret := range core.Returns(cal) {
+		if cal.Recover != nil && ret.Block() == cal.Recover {
+			continue
+		}
+		if idx >= len(ret.Results) || isConstBool(ret.Results[idx], !want) {
+			continue
+		}
+		cur := map[string]bool{}
+		for _, src := range phiSources(ret.Results[idx]) {
+			_ = src
+		}
+		for _, de := range dominatingEdges(ret) {
+			cur[describeCondWith(de, rs)] = true
+			for _, s := range impliedConds(de, depth+1)[1:] {
+				cur[s] = true
+			}
+		}
+		if common == nil {
+			common = cur
+		} else {
+			for k := range common {
+				if !cur[k] {
+					delete(common, k)
+				}
+			}
+		}
+	}
+	return append(out, core.SortedKeys(common)...)
+}
